@@ -157,6 +157,7 @@ func lutimes(path string, t syscall.Timespec) error {
 }
 
 var corruptSeq int64
+var recordSeq int64
 var linkWorldSeq int64
 
 const dirVariant = 7 // trim.txt is a directory
@@ -434,7 +435,10 @@ func build(cs *caseJ, root string) (*world, error) {
 		}
 	case "time":
 		t := now.Add(-mins(cs.Init.TT.V))
-		if err := os.WriteFile(tp, []byte(strconv.FormatInt(t.Unix(), 10)), 0o666); err != nil {
+		// the number as Trim writes it, or as an editor, a shell redirect or another platform leaves it: white space around
+		// a number does not make it another number
+		tail := []string{"", "\n", " \n", "\r\n", "\t"}[atomic.AddInt64(&recordSeq, 1)%5]
+		if err := os.WriteFile(tp, []byte(strconv.FormatInt(t.Unix(), 10)+tail), 0o666); err != nil {
 			return nil, err
 		}
 		os.Chtimes(tp, t, t)
